@@ -43,6 +43,9 @@ pub fn build_cases(workdir: &str, which: &str, seed: u64, n_gen: usize, max_byte
     cases
 }
 
+/// inputs for which the memo table is compared as well
+pub fn memo_obs(text: &str, verbose: bool) -> bool { !verbose && text.len() <= 200 }
+
 pub fn main(args: &[String]) {
     // pegcmp <workdir> <which> <seed> <n_gen> <max_bytes> <outprefix>
     let workdir = &args[0]; let which = &args[1];
@@ -51,11 +54,16 @@ pub fn main(args: &[String]) {
     let cases = std::sync::Arc::new(build_cases(workdir, which, seed, n_gen, max_bytes));
     let kinds = std::sync::Arc::new(Kinds::load(workdir));
     let verbose = std::env::var("SVH_VERBOSE").is_ok();
-    let c2 = cases.clone();
+    let c2 = cases.clone(); let wd2 = workdir.clone();
     let lines = util::par_map(cases.len(), util::env_usize("SVH_THREADS", 16), move |i| {
         let c = &c2[i];
         let text = c.text.clone(); let start = c.start.clone(); let cap = c.cap; let kinds = kinds.clone();
-        match std::panic::catch_unwind(std::panic::AssertUnwindSafe(|| parsers::run(&start, Some(cap), &text, &kinds, verbose).line())) {
+        let wd = wd2.clone();
+        match std::panic::catch_unwind(std::panic::AssertUnwindSafe(|| {
+            let l = parsers::run(&start, Some(cap), &text, &kinds, verbose).line();
+            // short inputs: also the canonical hash of the memo table the parse left behind (sharp observable of the memo traffic)
+            if memo_obs(&text, verbose) { format!("{} m={}", l.split(' ').take(if l.starts_with("ok") { 7 } else { 4 }).collect::<Vec<_>>().join(" "), parsers::memo_hash(&text, &wd)) } else { l }
+        })) {
             Ok(l) => l,
             Err(e) => format!("panic {}", util::panic_msg(e).replace('\n', " ")),
         }
@@ -65,7 +73,7 @@ pub fn main(args: &[String]) {
     let mut ft = std::fs::File::create(format!("{}.tags", out)).unwrap();
     for (c, l) in cases.iter().zip(lines.iter()) {
         let cap = c.cap.map(|x| x.to_string()).unwrap_or("none".into());
-        writeln!(fc, "{} {} {} {}", if verbose { "parsev" } else { "parse" }, c.start, cap, util::hex(c.text.as_bytes())).unwrap();
+        writeln!(fc, "{} {} {} {}", if memo_obs(&c.text, verbose) { "parseh" } else if verbose { "parsev" } else { "parse" }, c.start, cap, util::hex(c.text.as_bytes())).unwrap();
         writeln!(fi, "{}", l).unwrap();
         writeln!(ft, "{}", c.tag).unwrap();
     }
